@@ -441,7 +441,7 @@ func c05UpdateBodies(c *harness.Ctx) bool {
 
 // ---------- (c) API sequences ----------
 
-var c05APIOps = []string{"addA", "addB", "addInvalid", "delA", "getA", "list", "serve", "close", "connectB", "connectX"}
+var c05APIOps = []string{"addA", "addB", "addInvalid", "delA", "getA", "list", "serve", "close", "connectB", "connectX", "addC0"}
 
 type c05API struct {
 	Ops []int `json:"ops"`
@@ -474,6 +474,9 @@ func c05APIRun(cs c05API, ch vrt.Chooser, trace bool) (*world.World, *vrt.Exec, 
 				if err := s.AddPeer(corebgp.PeerConfig{RemoteAddress: netip.Addr{}, LocalAS: 1, RemoteAS: 1}, nullPlugin{}); err == nil {
 					*problems = append(*problems, "AddPeer accepted an invalid configuration")
 				}
+			case "addC0":
+				// boundary option values AddPeer accepts: connect-retry time 0, hold time 0, port 65535
+				s.AddPeer(peerConfig("10.0.0.5", 65001, 65005), &world.Plugin{W: w, Peer: "P5"}, corebgp.WithConnectRetryTime(0), corebgp.WithHoldTime(0), corebgp.WithPort(65535))
 			case "delA":
 				s.DeletePeer(netip.MustParseAddr(remIP))
 			case "getA":
@@ -754,6 +757,18 @@ func c05Check(c *harness.Ctx) {
 			return
 		}
 	}
+	// sequences of sessions in both directions: the whole matrix of first-connection scripts
+	for i, p := range c01MatrixLate() {
+		if !c.Mine(i) {
+			continue
+		}
+		if c.Expired() {
+			return
+		}
+		if !exploreScn(c, "C05", c01ScnFor("C05", p, 1)) {
+			return
+		}
+	}
 	frontier := [][]int{{}}
 	k := 0
 	for d := 0; d < maxOps; d++ {
@@ -781,7 +796,7 @@ func c05Check(c *harness.Ctx) {
 func init() {
 	harness.Register(&harness.Check{
 		Property: "C05", Level: "exploration", NeedsConc: true, QuickS: 280, ThoroughS: 1600,
-		Rule:   "(a) at each of OpenSent/OpenConfirm/Established x both directions: every type octet x lengths {19,20,21,29,4096} x two fills, boundary header lengths, every marker octet corrupted, received NOTIFICATIONs (codes x subcodes x 8 data patterns), bursts (a session-ending message with 1-3 complete messages behind it in the same write), RFC 9072 shaped OPENs, every truncation of each valid message type followed by FIN, the OPEN body set G02 of C02, and all UPDATE bodies up to length 4 (5 thorough) over a 12-symbol alphabet decoded by a plugin that wires every exported typed decoder; after each input a second peer must still establish, Close and Serve must return, no corebgp goroutine may remain, nothing malformed may have been written; (b) every exported decoder on all byte strings up to length 2 (3 thorough) over all 256 values x 6 flag octets, every length 0..300 and boundary lengths to 70000 with four fills, UpdateDecoder on all 11x11 boundary pairs of its two length fields x total lengths up to 70000; (b') UpdateDecoder.Decode on the C16 body sets (all strings up to length 7 / 8 over the 12-symbol alphabet, grammar with length-field mutations, 4077-byte bodies), judged only for returning; (c) plugins whose OnClose joins a goroutine that is inside WriteUpdate (all schedules within delay bound 2); all API call sequences up to length 4 (5 thorough) over {AddPeer A/B/invalid, DeletePeer, GetPeer, ListPeers, Serve, Close, an inbound connection from the passive peer / from an unconfigured address} (repeated Serve included), each followed by a liveness probe, all schedules within delay bound 1; distinct_nontrivial counts wire cases, decoder sweep blocks and distinct API outcomes",
+		Rule:   "(a) at each of OpenSent/OpenConfirm/Established x both directions: every type octet x lengths {19,20,21,29,4096} x two fills, boundary header lengths, every marker octet corrupted, received NOTIFICATIONs (codes x subcodes x 8 data patterns), bursts (a session-ending message with 1-3 complete messages behind it in the same write), RFC 9072 shaped OPENs, every truncation of each valid message type followed by FIN, the OPEN body set G02 of C02, and all UPDATE bodies up to length 4 (5 thorough) over a 12-symbol alphabet decoded by a plugin that wires every exported typed decoder; after each input a second peer must still establish, Close and Serve must return, no corebgp goroutine may remain, nothing malformed may have been written; (b) every exported decoder on all byte strings up to length 2 (3 thorough) over all 256 values x 6 flag octets, every length 0..300 and boundary lengths to 70000 with four fills, UpdateDecoder on all 11x11 boundary pairs of its two length fields x total lengths up to 70000; (b') UpdateDecoder.Decode on the C16 body sets (all strings up to length 7 / 8 over the 12-symbol alphabet, grammar with length-field mutations, 4077-byte bodies), judged only for returning; (c) the matrix of first-connection scripts of C01 (close at accept, OPEN then close / stall, bad OPEN, handshake then stay / UPDATE+close / Cease / garbage, on the first inbound and the first outbound connection, both modes and dominances) run to the end of their reconnections, delay bound 1; plugins whose OnClose joins a goroutine that is inside WriteUpdate (all schedules within delay bound 2); all API call sequences up to length 4 (5 thorough) over {AddPeer A/B/invalid, AddPeer with boundary options (connect-retry 0, hold 0, port 65535), DeletePeer, GetPeer, ListPeers, Serve, Close, an inbound connection from the passive peer / from an unconfigured address} (repeated Serve included), each followed by a liveness probe, all schedules within delay bound 1; distinct_nontrivial counts wire cases, decoder sweep blocks and distinct API outcomes",
 		Assume: []string{"virtual network (A3)", "a panic is attributed to corebgp when its frames are on the stack"},
 		Run:    c05Check,
 		Replay: func(c *harness.Ctx, raw json.RawMessage) {
@@ -804,6 +819,13 @@ func init() {
 					for _, p := range c04JoinParams() {
 						if p.name() == name {
 							return c04ScnFor("C05", p, 2)
+						}
+					}
+					if s := c01Lookup(name); s != nil && (strings.HasPrefix(name, "active/") || strings.HasPrefix(name, "passive/")) {
+						for _, p := range c01MatrixLate() {
+							if p.name() == name {
+								return c01ScnFor("C05", p, 2)
+							}
 						}
 					}
 					var cs c05API
